@@ -43,6 +43,9 @@ type Case struct {
 	ReadDelayNS int64    `json:"read_delay_ns"`
 	LogLevel    string   `json:"log_level"`
 	NLoggers    int      `json:"n_loggers"`
+	// WriteFailAfter >= 0: the transport fails every write after that many succeeded (used by the
+	// C11 log checks: a failing write must not leak what it carried). absent = never.
+	WriteFailAfter *int `json:"write_fail_after,omitempty"`
 }
 
 const shellPrompt = "edge-1# "
@@ -325,6 +328,10 @@ func Run(c Case) (res Result) {
 	dev := &loginDev{c: &c}
 	pipe := sim.NewPipe(dev)
 	pipe.Plan = c.Plan
+
+	if c.WriteFailAfter != nil {
+		pipe.WriteFailAfter = *c.WriteFailAfter
+	}
 
 	if c.StallAt >= 0 {
 		pipe.FaultAt = c.StallAt
